@@ -175,7 +175,7 @@ def delivered_bytes(inv: Optional[bytes], fault: Optional[Dict[str, Any]]) -> Op
     if k in ('net.reset_midway', 'net.short_content_length'):
         # the connection dies only if the cut lies inside the body
         return None if fault['at'] < len(inv) else inv
-    if k in ('net.drop', 'net.timeout', 'net.redirect_loop'):
+    if k in ('net.drop', 'net.timeout', 'net.redirect_loop', 'net.bad_content_encoding'):
         return None
     if k == 'net.http_error':
         return b'<html>error page</html>'
